@@ -67,6 +67,10 @@ macro "register_prod " n:ident : command =>
 theorem Pres.peek (h : PrimOK R) : Pres R peek := h.peekK 1
 register_pres Pres.peek
 
+theorem Pres.hereLoc (h : PrimOK R) : Pres R hereLoc := by
+  unfold PycModel.hereLoc; pres
+register_pres Pres.hereLoc
+
 theorem Pres.peekType (h : PrimOK R) : Pres R peekType := by
   unfold PycModel.peekType; pres
 register_pres Pres.peekType
